@@ -17,7 +17,7 @@
    it is the only place where the stored DIAGONAL of the triangular operand is read. *)
 From Coq Require Import List NArith Arith Lia Bool.
 From M4 Require Import Base.Bits Lin.Mat Lin.MatAlg Lin.Ops Lin.OpsProofs Lin.Spec Lin.Tri
-  Alg.Gauss Alg.TRSM Alg.TRSMProofs.
+  Alg.Gray Alg.GrayProofs Alg.Gauss Alg.TRSM Alg.TRSMProofs Alg.TRSMRec.
 Import ListNotations.
 Local Open Scope nat_scope.
 
@@ -508,4 +508,547 @@ Corollary mzd_trsm_lower_right_correct c cutoff L B : wf L -> wf B -> nr L = nc 
 Proof.
   intros HL HB H1 H2 X. pose proof (wrapper_dims_right L B HL H1 H2) as Hl. rewrite H2 in *.
   destruct (trsm_lower_right_rec_correct c cutoff L B HB Hl) as (a & b & d & e & f & _). auto.
+Qed.
+
+(** * 7. The word base cases of the right variants as the C code computes them (Alg/TRSMRec.v):
+      64 dot products at a time, column by column *)
+Lemma parity64_land x c :
+  parity64 (N.land x c) = xsum 64 (fun k => N.testbit x (N.of_nat k) && N.testbit c (N.of_nat k)).
+Proof. unfold parity64. apply xsum_ext. intros k _. apply N.land_spec. Qed.
+
+Lemma testbit_dot_flip c i x j :
+  N.testbit (dot_flip c i x) (N.of_nat j) =
+  xorb (N.testbit x (N.of_nat j))
+       ((i =? j) && xsum 64 (fun k => N.testbit x (N.of_nat k) && N.testbit c (N.of_nat k))).
+Proof.
+  unfold dot_flip. rewrite parity64_land.
+  destruct (xsum 64 _); [|now rewrite andb_false_r, xorb_false_r].
+  now rewrite N.lxor_spec, testbit_pow2_nat, andb_true_r.
+Qed.
+
+(** ascending columns, each ucol living strictly below its column *)
+Lemma dot_asc (c : nat -> N) : (forall i k, N.testbit (c i) (N.of_nat k) = true -> k < i) ->
+  forall len s x0, let x := fold_left (fun x i => dot_flip (c i) i x) (seq s len) x0 in
+  forall j, N.testbit x (N.of_nat j) =
+    if (s <=? j) && (j <? s + len)
+    then xorb (N.testbit x0 (N.of_nat j))
+              (xsum 64 (fun k => N.testbit x (N.of_nat k) && N.testbit (c j) (N.of_nat k)))
+    else N.testbit x0 (N.of_nat j).
+Proof.
+  intros Hc. induction len as [|len IH]; intros s x0 x j.
+  - unfold x. cbn [seq fold_left]. destruct (Nat.leb_spec s j), (Nat.ltb_spec j (s + 0)); try lia; reflexivity.
+  - unfold x. cbn [seq fold_left]. set (y := dot_flip (c s) s x0).
+    specialize (IH (S s) y). cbn zeta in IH.
+    set (x' := fold_left (fun x i => dot_flip (c i) i x) (seq (S s) len) y) in *.
+    assert (Hlow : forall k, k < s -> N.testbit x' (N.of_nat k) = N.testbit x0 (N.of_nat k)).
+    { intros k Hk. rewrite IH. destruct (Nat.leb_spec (S s) k); [lia|]. cbn [andb].
+      unfold y. rewrite testbit_dot_flip. destruct (Nat.eqb_spec s k); [lia|]. now rewrite xorb_false_r. }
+    rewrite IH. unfold y at 1 2. rewrite testbit_dot_flip.
+    destruct (Nat.leb_spec (S s) j), (Nat.ltb_spec j (S s + len)), (Nat.leb_spec s j), (Nat.ltb_spec j (s + S len)),
+      (Nat.eqb_spec s j); try lia; cbn [andb]; rewrite ?xorb_false_r; try reflexivity.
+    subst j. f_equal. apply xsum_ext. intros k _.
+    destruct (N.testbit (c s) (N.of_nat k)) eqn:E; [|now rewrite !andb_false_r].
+    apply Hc in E. now rewrite Hlow.
+Qed.
+
+(** descending columns, each ucol living strictly above its column *)
+Lemma dot_desc (c : nat -> N) : (forall i k, N.testbit (c i) (N.of_nat k) = true -> i < k) ->
+  forall n x0, let x := fold_left (fun x i => dot_flip (c i) i x) (rev (seq 0 n)) x0 in
+  forall j, N.testbit x (N.of_nat j) =
+    if j <? n
+    then xorb (N.testbit x0 (N.of_nat j))
+              (xsum 64 (fun k => N.testbit x (N.of_nat k) && N.testbit (c j) (N.of_nat k)))
+    else N.testbit x0 (N.of_nat j).
+Proof.
+  intros Hc. induction n as [|n IH]; intros x0 x j.
+  - reflexivity.
+  - unfold x. rewrite seq_S, rev_app_distr. cbn [rev app fold_left Nat.add]. set (y := dot_flip (c n) n x0).
+    specialize (IH y). cbn zeta in IH.
+    set (x' := fold_left (fun x i => dot_flip (c i) i x) (rev (seq 0 n)) y) in *.
+    assert (Hhigh : forall k, n < k -> N.testbit x' (N.of_nat k) = N.testbit x0 (N.of_nat k)).
+    { intros k Hk. rewrite IH. destruct (Nat.ltb_spec k n); [lia|].
+      unfold y. rewrite testbit_dot_flip. destruct (Nat.eqb_spec n k); [lia|]. now rewrite xorb_false_r. }
+    rewrite IH. unfold y at 1 2. rewrite testbit_dot_flip.
+    destruct (Nat.ltb_spec j n), (Nat.ltb_spec j (S n)), (Nat.eqb_spec n j); try lia; cbn [andb];
+      rewrite ?xorb_false_r; try reflexivity.
+    subst j. f_equal. apply xsum_ext. intros k _.
+    destruct (N.testbit (c n) (N.of_nat k)) eqn:E; [|now rewrite !andb_false_r].
+    apply Hc in E. now rewrite Hhigh.
+Qed.
+
+Lemma testbit_ur_ucol U i k : N.testbit (ur_ucol U i) (N.of_nat k) = get U k i && (k <? i).
+Proof. unfold ur_ucol. rewrite testbit_land_ones, testbit_col. reflexivity. Qed.
+
+Lemma testbit_lr_ucol n L i k :
+  N.testbit (lr_ucol n L i) (N.of_nat k) = get L k i && negb (k <? S i) && (k <? n).
+Proof. unfold lr_ucol. rewrite testbit_land_ones, testbit_ldiff_ones, testbit_col. reflexivity. Qed.
+
+Lemma ur_row_dot_solves U n b : n <= radix -> bounded n b ->
+  bounded n (ur_row_dot U n b) /\ mul_row (ur_row_dot U n b) (rows (unit_upper n U)) = b.
+Proof.
+  unfold radix. intros Hn Hb.
+  pose proof (dot_asc (ur_ucol U)) as H.
+  specialize (H ltac:(intros i k E; rewrite testbit_ur_ucol in E; destruct (Nat.ltb_spec k i); [assumption|rewrite andb_false_r in E; discriminate])).
+  specialize (H (n - 1) 1 b). cbn zeta in H. fold (ur_row_dot U n b) in H. set (x := ur_row_dot U n b) in *.
+  split.
+  - intros j Hj. rewrite H. destruct (Nat.leb_spec 1 j), (Nat.ltb_spec j (1 + (n - 1))); try lia; cbn [andb]; now apply Hb.
+  - rewrite unit_upper_masks. cbn [rows]. apply solve_row_mul; [|assumption|].
+    + intros k j _ E. rewrite testbit_ur_mask in E.
+      destruct (Nat.ltb_spec j (S k)), (Nat.ltb_spec j n); try lia;
+        rewrite ?andb_false_r in E; cbn [negb andb] in E; try discriminate; rewrite ?andb_false_r in E; discriminate.
+    + intros j Hj. rewrite H. destruct (Nat.leb_spec 1 j) as [H1|H1]; cbn [andb].
+      * destruct (Nat.ltb_spec j (1 + (n - 1))); [|lia]. f_equal.
+        rewrite (xsum_extend n 64); [|lia|intros k Hk; rewrite testbit_ur_ucol;
+          destruct (Nat.ltb_spec k j); [lia|now rewrite !andb_false_r]].
+        apply xsum_ext. intros k Hk. rewrite testbit_ur_ucol, testbit_ur_mask. f_equal.
+        destruct (Nat.ltb_spec k j), (Nat.ltb_spec j (S k)), (Nat.ltb_spec j n); try lia;
+          cbn [negb]; now rewrite ?andb_true_r, ?andb_false_r.
+      * assert (j = 0) by lia. subst j. rewrite xsum_zero; [now rewrite xorb_false_r|].
+        intros k _. rewrite testbit_ur_mask. destruct (Nat.ltb_spec 0 (S k)); [|lia].
+        cbn [negb]. now rewrite andb_false_r, andb_false_r.
+Qed.
+
+Lemma lr_row_dot_solves L n b : n <= radix -> bounded n b ->
+  bounded n (lr_row_dot L n b) /\ mul_row (lr_row_dot L n b) (rows (unit_lower n L)) = b.
+Proof.
+  unfold radix. intros Hn Hb.
+  pose proof (dot_desc (lr_ucol n L)) as H.
+  specialize (H ltac:(intros i k E; rewrite testbit_lr_ucol in E; destruct (Nat.ltb_spec k (S i)); [cbn [negb] in E; rewrite andb_false_r in E; discriminate|lia])).
+  specialize (H n b). cbn zeta in H. fold (lr_row_dot L n b) in H. set (x := lr_row_dot L n b) in *.
+  split.
+  - intros j Hj. rewrite H. destruct (Nat.ltb_spec j n); [lia|]. now apply Hb.
+  - rewrite unit_lower_masks. cbn [rows]. apply solve_row_mul; [|assumption|].
+    + intros k j Hk E. rewrite testbit_lr_mask in E.
+      destruct (Nat.ltb_spec j k); [lia|rewrite andb_false_r in E; discriminate].
+    + intros j Hj. rewrite H. destruct (Nat.ltb_spec j n); [|lia]. f_equal.
+      rewrite (xsum_extend n 64); [|lia|intros k Hk; rewrite testbit_lr_ucol;
+        destruct (Nat.ltb_spec k n); [lia|now rewrite !andb_false_r]].
+      apply xsum_ext. intros k Hk. rewrite testbit_lr_ucol, testbit_lr_mask. f_equal.
+      destruct (Nat.ltb_spec k (S j)), (Nat.ltb_spec j k), (Nat.ltb_spec k n); try lia;
+        cbn [negb]; now rewrite ?andb_true_r, ?andb_false_r.
+Qed.
+
+Theorem trsm_upper_right_base_solves U B : wf B -> nc B <= radix -> solves_ur U B (trsm_upper_right_base U B).
+Proof.
+  intros HB Hn. pose proof HB as [Hl Hbd]. rewrite Forall_forall in Hbd.
+  refine (conj _ (conj eq_refl (conj eq_refl _))).
+  - split; cbn [rows nr nc trsm_upper_right_base]; [now rewrite map_length|].
+    apply Forall_forall. intros x Hx. apply in_map_iff in Hx as (b & <- & Hin).
+    apply ur_row_dot_solves; auto.
+  - unfold mmul, trsm_upper_right_base. cbn [nr nc rows unit_upper]. rewrite map_map.
+    transitivity (mk (nr B) (nc B) (rows B)); [|apply mat_eta]. f_equal.
+    transitivity (map (fun b : N => b) (rows B)); [|apply map_id].
+    apply map_ext_in. intros b Hb. apply (ur_row_dot_solves U (nc B) b); auto.
+Qed.
+
+Theorem trsm_lower_right_base_solves L B : wf B -> nc B <= radix -> solves_lr L B (trsm_lower_right_base L B).
+Proof.
+  intros HB Hn. pose proof HB as [Hl Hbd]. rewrite Forall_forall in Hbd.
+  refine (conj _ (conj eq_refl (conj eq_refl _))).
+  - split; cbn [rows nr nc trsm_lower_right_base]; [now rewrite map_length|].
+    apply Forall_forall. intros x Hx. apply in_map_iff in Hx as (b & <- & Hin).
+    apply lr_row_dot_solves; auto.
+  - unfold mmul, trsm_lower_right_base. cbn [nr nc rows unit_lower]. rewrite map_map.
+    transitivity (mk (nr B) (nc B) (rows B)); [|apply mat_eta]. f_equal.
+    transitivity (map (fun b : N => b) (rows B)); [|apply map_id].
+    apply map_ext_in. intros b Hb. apply (lr_row_dot_solves L (nc B) b); auto.
+Qed.
+
+(** the recursive models with the dot-product base cases *)
+Theorem trsm_upper_right_rec_f_spec c cutoff U B : wf B -> nc B <= length (rows U) ->
+  diag_ones (nc B) U -> trsm_upper_right_rec_f c cutoff U B = trsm_upper_right U B.
+Proof.
+  intros HB HL HD. unfold trsm_upper_right_rec_f.
+  destruct (ur_rec_solves trsm_upper_right_base ur_middle addmul_spec (blocksize c) cutoff
+              (addmul_spec_ok cutoff)
+              (fun U B HB _ _ Hn => trsm_upper_right_base_solves U B HB Hn)
+              (fun U B HB HL HD _ => ur_middle_solves U B HB HL HD)
+              (nc B) U B (le_n _) HB HL HD) as (Hw & _ & Hc & E).
+  now apply trsm_upper_right_complete.
+Qed.
+
+Theorem trsm_lower_right_rec_f_spec c cutoff L B : wf B -> nc B <= length (rows L) ->
+  trsm_lower_right_rec_f c cutoff L B = trsm_lower_right L B.
+Proof.
+  intros HB HL. unfold trsm_lower_right_rec_f.
+  destruct (lr_rec_solves trsm_lower_right_base addmul_spec cutoff
+              (addmul_spec_ok cutoff)
+              (fun L B HB _ Hn => trsm_lower_right_base_solves L B HB Hn)
+              (nc B) L B (le_n _) HB HL) as (Hw & _ & Hc & E).
+  now apply trsm_lower_right_complete.
+Qed.
+
+(** * 8. The Four-Russians middle regime of the left variants (Alg/TRSMRec.v section 2) *)
+
+(** ** sums in chunks, xor of a list *)
+Lemma xsum_chunks nt k f : xsum (nt * k) f = xsum nt (fun t => xsum k (fun b => f (t * k + b))).
+Proof.
+  revert f. induction nt as [|nt IH]; intros f; [reflexivity|].
+  change (S nt * k) with (k + nt * k). rewrite xsum_app, xsum_shift, IH. f_equal.
+  apply xsum_ext. intros t _. apply xsum_ext. intros b _. f_equal. lia.
+Qed.
+
+Lemma testbit_fold_lxor l : forall a j,
+  N.testbit (fold_left N.lxor l a) (N.of_nat j) =
+  xorb (N.testbit a (N.of_nat j)) (xsum (length l) (fun t => N.testbit (nth t l 0%N) (N.of_nat j))).
+Proof.
+  induction l as [|x l IH]; intros a j; cbn [fold_left length].
+  - cbn. now rewrite xorb_false_r.
+  - rewrite IH, xsum_shift, N.lxor_spec. cbn [nth]. now rewrite xorb_assoc.
+Qed.
+
+Lemma combine_map_seq {A} (g : nat -> A) l : combine l (map g l) = map (fun t => (t, g t)) l.
+Proof. induction l as [|x l IH]; cbn; [reflexivity|now rewrite IH]. Qed.
+
+(** ** the table look-ups of one block are a product with the block rows *)
+Lemma testbit_combine_lookup T B j s k nt col : wf B -> s + nt * k <= nr B ->
+  N.testbit (combine_lookup T j s k (tables_at B s k nt)) (N.of_nat col) =
+  xsum (nt * k) (fun c => get T j (s + c) && get B (s + c) col).
+Proof.
+  intros HB Hs. pose proof (wf_len B HB) as HlB.
+  unfold combine_lookup, tables_at. rewrite map_length, seq_length, combine_map_seq, map_map.
+  rewrite testbit_fold_lxor, map_length, seq_length. cbn [fst snd]. rewrite N.bits_0, xorb_false_l.
+  rewrite xsum_chunks. apply xsum_ext. intros t Ht.
+  rewrite (nth_map_default _ _ _ 0) by now rewrite seq_length. rewrite seq_nth by assumption. cbn [Nat.add].
+  assert (Hfit : s + t * k + k <= nr B) by nia.
+  rewrite gray_lookup; auto.
+  - rewrite testbit_mul_row, block_rows_length by lia. apply xsum_ext. intros b Hb.
+    rewrite testbit_read_bits, nth_block_rows by assumption.
+    destruct (Nat.ltb_spec b k); [|lia]. cbn [andb]. unfold get. now rewrite !Nat.add_assoc.
+  - unfold fresh_T. now rewrite repeat_length.
+  - unfold fresh_L. now rewrite repeat_length.
+  - unfold fresh_T. destruct (2 ^ k); reflexivity.
+  - unfold fresh_T. apply Forall_forall. intros x Hx. apply repeat_spec in Hx. subst x. apply bounded_0.
+  - apply bounded_lt, bounded_read_bits.
+Qed.
+
+Lemma bounded_combine_lookup T B j s k nt : wf B -> s + nt * k <= nr B ->
+  bounded (nc B) (combine_lookup T j s k (tables_at B s k nt)).
+Proof.
+  intros HB Hs col Hcol. rewrite testbit_combine_lookup by assumption. apply xsum_zero.
+  intros c _. rewrite (get_out_col B) by assumption. apply andb_false_r.
+Qed.
+
+(** ** lower left *)
+Section LLRussian.
+  Variables (L B0 : mat).
+  Hypothesis HB0 : wf B0.
+  Let n := nr B0.
+  Let X := trsm_lower_left L B0.
+
+  (** state after the first s rows are final: rows < s hold X, the others have had the
+      contributions of the columns < s removed *)
+  Definition ll_state (s : nat) (B : mat) : Prop :=
+    wf B /\ nr B = n /\ nc B = nc B0 /\
+    forall r j, r < n -> get B r j =
+      if r <? s then get X r j else xorb (get B0 r j) (xsum s (fun c => get L r c && get X c j)).
+
+  Lemma ll_state_init : ll_state 0 B0.
+  Proof using HB0.
+    refine (conj HB0 (conj eq_refl (conj eq_refl _))). intros r j Hr. cbn. now rewrite xorb_false_r.
+  Qed.
+
+  Lemma ll_state_final B : ll_state n B -> B = X.
+  Proof using HB0.
+    intros (Hw & Hr & Hc & Hg). apply mat_ext; auto.
+    - now apply wf_trsm_lower_left.
+    - intros r j Hrn _. rewrite Hr in Hrn. rewrite Hg by assumption.
+      destruct (Nat.ltb_spec r n); [reflexivity|lia].
+  Qed.
+
+  (** inner loop of _submatrix: row d += rows s+jj selected by L[d, s+jj], jj < m *)
+  Lemma ll_inner_spec B s d : wf B -> d < nr B -> forall m, s + m <= d ->
+    let B' := fold_left (fun B j => if get L d (s + j) then row_add B (s + j) d else B) (seq 0 m) B in
+    wf B' /\ nr B' = nr B /\ nc B' = nc B /\
+    forall r j, get B' r j = xorb (get B r j) ((r =? d) && xsum m (fun jj => get L d (s + jj) && get B (s + jj) j)).
+  Proof.
+    intros HB Hd. induction m as [|m IH]; intros Hm B'.
+    - unfold B'. cbn. refine (conj HB (conj eq_refl (conj eq_refl _))). intros r j.
+      now rewrite andb_false_r, xorb_false_r.
+    - unfold B'. rewrite seq_S, fold_left_app. cbn [fold_left Nat.add].
+      destruct (IH ltac:(lia)) as (Hw & Hr & Hc & Hg).
+      set (B1 := fold_left (fun B j => if get L d (s + j) then row_add B (s + j) d else B) (seq 0 m) B) in *.
+      assert (Hsm : forall j, get B1 (s + m) j = get B (s + m) j).
+      { intros j. rewrite Hg. destruct (Nat.eqb_spec (s + m) d); [lia|]. now rewrite xorb_false_r. }
+      destruct (get L d (s + m)) eqn:E.
+      + refine (conj (wf_row_add _ _ _ Hw) (conj Hr (conj Hc _))). intros r j.
+        rewrite get_row_add by (auto; lia). rewrite Hg, Hsm. cbn [xsum]. rewrite E. cbn [andb].
+        destruct (r =? d); cbn [andb]; now rewrite ?xorb_false_r, ?xorb_assoc.
+      + refine (conj Hw (conj Hr (conj Hc _))). intros r j. rewrite Hg. cbn [xsum]. rewrite E.
+        cbn [andb]. now rewrite xorb_false_r.
+  Qed.
+
+  (** _mzd_trsm_lower_left_submatrix finishes the rows of the block *)
+  Lemma ll_submatrix_spec B s k : ll_state s B -> s + k <= n ->
+    let B' := ll_submatrix L B s k in
+    wf B' /\ nr B' = n /\ nc B' = nc B0 /\
+    forall r j, r < n -> get B' r j = if (s <=? r) && (r <? s + k) then get X r j else get B r j.
+  Proof using HB0.
+    intros (Hw & Hr & Hc & Hg) Hk.
+    assert (H : forall m, m <= k ->
+      let B' := fold_left (fun B i =>
+                  fold_left (fun B j => if get L (s + i) (s + j) then row_add B (s + j) (s + i) else B) (seq 0 i) B)
+                  (seq 0 m) B in
+      wf B' /\ nr B' = n /\ nc B' = nc B0 /\
+      forall r j, r < n -> get B' r j = if (s <=? r) && (r <? s + m) then get X r j else get B r j).
+    { induction m as [|m IH]; intros Hm B'.
+      - unfold B'. cbn [seq fold_left]. refine (conj Hw (conj Hr (conj Hc _))). intros r j _.
+        destruct (Nat.leb_spec s r), (Nat.ltb_spec r (s + 0)); try lia; reflexivity.
+      - unfold B'. rewrite seq_S, fold_left_app. cbn [fold_left Nat.add].
+        destruct (IH ltac:(lia)) as (Hw1 & Hr1 & Hc1 & Hg1).
+        set (B1 := fold_left _ (seq 0 m) B) in *.
+        destruct (ll_inner_spec B1 s (s + m) Hw1 ltac:(lia) m (le_n _)) as (Hw2 & Hr2 & Hc2 & Hg2).
+        refine (conj Hw2 (conj _ (conj _ _))); [congruence|congruence|]. intros r j Hrn.
+        rewrite Hg2, Hg1 by assumption.
+        destruct (Nat.eqb_spec r (s + m)) as [->|Hne]; cbn [andb].
+        + destruct (Nat.leb_spec s (s + m)), (Nat.ltb_spec (s + m) (s + m)), (Nat.ltb_spec (s + m) (s + S m));
+            try lia. cbn [andb].
+          rewrite Hg by lia. destruct (Nat.ltb_spec (s + m) s); [lia|].
+          symmetry. unfold X at 1. rewrite trsm_lower_left_char by (auto; fold n; lia). fold X.
+          rewrite xsum_app, <- xorb_assoc. f_equal.
+          apply xsum_ext. intros jj Hjj. rewrite Hg1 by lia.
+          destruct (Nat.leb_spec s (s + jj)), (Nat.ltb_spec (s + jj) (s + m)); try lia. reflexivity.
+        + rewrite xorb_false_r.
+          destruct (Nat.leb_spec s r), (Nat.ltb_spec r (s + m)), (Nat.ltb_spec r (s + S m)); try lia; reflexivity. }
+    exact (H k (le_n _)).
+  Qed.
+
+  (** one block: the state advances by nt*k rows *)
+  Lemma ll_block_state B s k nt : ll_state s B -> s + nt * k <= n -> ll_state (s + nt * k) (ll_block L B s k nt).
+  Proof using HB0.
+    intros Hst Hk. pose proof Hst as (Hw & Hr & Hc & Hg).
+    destruct (ll_submatrix_spec B s (nt * k) Hst Hk) as (Hw1 & Hr1 & Hc1 & Hg1).
+    unfold ll_block. set (B1 := ll_submatrix L B s (nt * k)) in *.
+    pose proof (wf_len B1 Hw1) as Hl1.
+    refine (conj _ (conj Hr1 (conj Hc1 _))).
+    - apply wf_map_rows; [assumption|]. intros i r _ Hb.
+      destruct (s + nt * k <=? i); [|assumption].
+      apply bounded_lxor; [assumption|]. apply bounded_combine_lookup; auto. lia.
+    - intros r j Hrn. unfold get at 1. rewrite row_map_rows. destruct (Nat.ltb_spec r (length (rows B1))); [|lia].
+      destruct (Nat.leb_spec (s + nt * k) r) as [Hge|Hlt].
+      + rewrite N.lxor_spec, testbit_combine_lookup by (auto; lia). fold (get B1 r j).
+        rewrite Hg1 by assumption. destruct (Nat.leb_spec s r), (Nat.ltb_spec r (s + nt * k)); try lia. cbn [andb].
+        rewrite Hg by assumption. destruct (Nat.ltb_spec r s); [lia|]. destruct (Nat.ltb_spec r (s + nt * k)); [lia|].
+        rewrite xsum_app, xorb_assoc. do 2 f_equal. apply xsum_ext. intros c Hc'.
+        rewrite Hg1 by lia. destruct (Nat.leb_spec s (s + c)), (Nat.ltb_spec (s + c) (s + nt * k)); try lia. reflexivity.
+      + fold (get B1 r j). rewrite Hg1 by assumption. destruct (Nat.ltb_spec r (s + nt * k)); [|lia].
+        destruct (Nat.leb_spec s r); cbn [andb]; [reflexivity|].
+        rewrite Hg by assumption. destruct (Nat.ltb_spec r s); [reflexivity|lia].
+  Qed.
+
+  Lemma ll_big_state k : forall fuel B i, ll_state i B -> i <= n ->
+    ll_state (snd (ll_russian_big fuel L B k i)) (fst (ll_russian_big fuel L B k i)) /\
+    snd (ll_russian_big fuel L B k i) <= n.
+  Proof using HB0.
+    induction fuel as [|f IH]; intros B i Hst Hi; cbn [ll_russian_big]; [now split|].
+    pose proof Hst as (_ & Hr & _). rewrite Hr.
+    destruct (Nat.ltb_spec (i + ntables * k) n); [|now split].
+    apply IH; [|lia]. apply ll_block_state; [assumption|lia].
+  Qed.
+
+  Lemma ll_small_state : forall fuel B k i, 1 <= k -> ll_state i B -> i <= n -> n - i <= fuel ->
+    ll_state n (ll_russian_small fuel L B k i).
+  Proof using HB0.
+    induction fuel as [|f IH]; intros B k i Hk Hst Hi Hf; cbn [ll_russian_small].
+    - now replace n with i by lia.
+    - pose proof Hst as (_ & Hr & _). rewrite Hr.
+      destruct (Nat.ltb_spec i n) as [Hlt|Hge]; [|now replace n with i by lia].
+      set (k' := if n <? i + k then n - i else k).
+      assert (Hk' : 1 <= k' /\ i + k' <= n) by (unfold k'; destruct (Nat.ltb_spec n (i + k)); lia).
+      apply IH; try lia. replace (i + k') with (i + 1 * k') by lia.
+      apply ll_block_state; [assumption|lia].
+  Qed.
+
+  Theorem trsm_lower_left_russian_eq k : 1 <= k -> trsm_lower_left_russian k L B0 = X.
+  Proof using HB0.
+    intros Hk. unfold trsm_lower_left_russian. fold n.
+    destruct (ll_big_state k n B0 0 ll_state_init (Nat.le_0_l _)) as [Hst Hi].
+    destruct (ll_russian_big n L B0 k 0) as [B1 i]. cbn [fst snd] in Hst, Hi.
+    apply ll_state_final. apply ll_small_state; auto. lia.
+  Qed.
+End LLRussian.
+
+Theorem trsm_lower_left_russian_solves k L B : 1 <= k -> wf B -> solves_ll L B (trsm_lower_left_russian k L B).
+Proof. intros Hk HB. rewrite trsm_lower_left_russian_eq by assumption. now apply trsm_lower_left_spec. Qed.
+
+(** ** upper left (bottom up) *)
+(** inner loop of a _submatrix routine: row d += rows s+jj selected by T[d, s+jj], jj < m, none of
+    them being row d itself *)
+Lemma inner_add_spec T B s d : wf B -> d < nr B -> forall m, (s + m <= d \/ d < s) ->
+  let B' := fold_left (fun B j => if get T d (s + j) then row_add B (s + j) d else B) (seq 0 m) B in
+  wf B' /\ nr B' = nr B /\ nc B' = nc B /\
+  forall r j, get B' r j = xorb (get B r j) ((r =? d) && xsum m (fun jj => get T d (s + jj) && get B (s + jj) j)).
+Proof.
+  intros HB Hd. induction m as [|m IH]; intros Hm B'.
+  - unfold B'. cbn. refine (conj HB (conj eq_refl (conj eq_refl _))). intros r j.
+    now rewrite andb_false_r, xorb_false_r.
+  - unfold B'. rewrite seq_S, fold_left_app. cbn [fold_left Nat.add].
+    destruct (IH ltac:(lia)) as (Hw & Hr & Hc & Hg).
+    set (B1 := fold_left (fun B j => if get T d (s + j) then row_add B (s + j) d else B) (seq 0 m) B) in *.
+    assert (Hsm : forall j, get B1 (s + m) j = get B (s + m) j).
+    { intros j. rewrite Hg. destruct (Nat.eqb_spec (s + m) d); [lia|]. now rewrite xorb_false_r. }
+    destruct (get T d (s + m)) eqn:E.
+    + refine (conj (wf_row_add _ _ _ Hw) (conj Hr (conj Hc _))). intros r j.
+      rewrite get_row_add by (auto; lia). rewrite Hg, Hsm. cbn [xsum]. rewrite E. cbn [andb].
+      destruct (r =? d); cbn [andb]; now rewrite ?xorb_false_r, ?xorb_assoc.
+    + refine (conj Hw (conj Hr (conj Hc _))). intros r j. rewrite Hg. cbn [xsum]. rewrite E.
+      cbn [andb]. now rewrite xorb_false_r.
+Qed.
+
+Section ULRussian.
+  Variables (U B0 : mat).
+  Hypothesis HB0 : wf B0.
+  Let n := nr B0.
+  Let X := trsm_upper_left U B0.
+
+  (** rows >= s hold X, the others have had the contributions of the columns >= s removed *)
+  Definition ul_state (s : nat) (B : mat) : Prop :=
+    wf B /\ nr B = n /\ nc B = nc B0 /\
+    forall r j, r < n -> get B r j =
+      if s <=? r then get X r j
+      else xorb (get B0 r j) (xsum (n - s) (fun c => get U r (s + c) && get X (s + c) j)).
+
+  Lemma ul_state_init : ul_state n B0.
+  Proof using HB0.
+    refine (conj HB0 (conj eq_refl (conj eq_refl _))). intros r j Hr.
+    destruct (Nat.leb_spec n r); [lia|]. rewrite Nat.sub_diag. cbn. now rewrite xorb_false_r.
+  Qed.
+
+  Lemma ul_state_final B : ul_state 0 B -> B = X.
+  Proof using HB0.
+    intros (Hw & Hr & Hc & Hg). apply mat_ext; auto.
+    - now apply wf_trsm_upper_left.
+    - intros r j Hrn _. rewrite Hr in Hrn. now rewrite Hg by assumption.
+  Qed.
+
+  Lemma ul_submatrix_spec B s k : ul_state s B -> k <= s -> s <= n ->
+    let B' := ul_submatrix U B (s - k) k in
+    wf B' /\ nr B' = n /\ nc B' = nc B0 /\
+    forall r j, r < n -> get B' r j = if (s - k <=? r) && (r <? s) then get X r j else get B r j.
+  Proof using HB0.
+    intros (Hw & Hr & Hc & Hg) Hk Hs. set (s' := s - k).
+    assert (H : forall m, m <= k ->
+      let B' := fold_left (fun B i =>
+                  fold_left (fun B j => if get U (s' + (k - i - 1)) (s' + (k - i) + j)
+                                        then row_add B (s' + (k - i) + j) (s' + (k - i - 1)) else B) (seq 0 i) B)
+                  (seq 0 m) B in
+      wf B' /\ nr B' = n /\ nc B' = nc B0 /\
+      forall r j, r < n -> get B' r j = if (s - m <=? r) && (r <? s) then get X r j else get B r j).
+    { induction m as [|m IH]; intros Hm B'.
+      - unfold B'. cbn [seq fold_left]. refine (conj Hw (conj Hr (conj Hc _))). intros r j _.
+        destruct (Nat.leb_spec (s - 0) r), (Nat.ltb_spec r s); try lia; reflexivity.
+      - unfold B'. rewrite seq_S, fold_left_app. cbn [fold_left Nat.add].
+        destruct (IH ltac:(lia)) as (Hw1 & Hr1 & Hc1 & Hg1).
+        set (B1 := fold_left _ (seq 0 m) B) in *.
+        assert (Ed : s' + (k - m - 1) = s - S m) by (unfold s'; lia).
+        assert (Es : s' + (k - m) = S (s - S m)) by (unfold s'; lia).
+        rewrite Ed, Es. set (d := s - S m) in *.
+        destruct (inner_add_spec U B1 (S d) d Hw1 ltac:(lia) m ltac:(lia)) as (Hw2 & Hr2 & Hc2 & Hg2).
+        refine (conj Hw2 (conj _ (conj _ _))); [congruence|congruence|]. intros r j Hrn.
+        rewrite Hg2, Hg1 by assumption.
+        destruct (Nat.eqb_spec r d) as [->|Hne]; cbn [andb].
+        + destruct (Nat.leb_spec (s - m) d), (Nat.leb_spec d d), (Nat.ltb_spec d s); try lia. cbn [andb].
+          rewrite Hg by lia. destruct (Nat.leb_spec s d); [lia|].
+          symmetry. unfold X at 1. rewrite trsm_upper_left_char by (auto; fold n; lia). fold X. fold n.
+          replace (n - S d) with (m + (n - s)) by lia.
+          rewrite xsum_app, (xorb_comm (xsum m _)), <- xorb_assoc. f_equal.
+          * f_equal. apply xsum_ext. intros c _. now replace (S d + (m + c)) with (s + c) by lia.
+          * apply xsum_ext. intros jj Hjj. rewrite Hg1 by lia.
+            destruct (Nat.leb_spec (s - m) (S d + jj)), (Nat.ltb_spec (S d + jj) s); try lia. reflexivity.
+        + rewrite xorb_false_r.
+          destruct (Nat.leb_spec (s - m) r), (Nat.leb_spec d r), (Nat.ltb_spec r s); try lia; reflexivity. }
+    exact (H k (le_n _)).
+  Qed.
+
+  Lemma ul_block_state B s k nt : ul_state s B -> nt * k <= s -> s <= n ->
+    ul_state (s - nt * k) (ul_block U B (s - nt * k) k nt).
+  Proof using HB0.
+    intros Hst Hk Hs. pose proof Hst as (Hw & Hr & Hc & Hg).
+    destruct (ul_submatrix_spec B s (nt * k) Hst Hk Hs) as (Hw1 & Hr1 & Hc1 & Hg1).
+    unfold ul_block. set (s' := s - nt * k) in *. set (B1 := ul_submatrix U B s' (nt * k)) in *.
+    pose proof (wf_len B1 Hw1) as Hl1.
+    refine (conj _ (conj Hr1 (conj Hc1 _))).
+    - apply wf_map_rows; [assumption|]. intros i r _ Hb.
+      destruct (i <? s'); [|assumption].
+      apply bounded_lxor; [assumption|]. apply bounded_combine_lookup; auto. unfold s'. lia.
+    - intros r j Hrn. unfold get at 1. rewrite row_map_rows. destruct (Nat.ltb_spec r (length (rows B1))); [|lia].
+      destruct (Nat.ltb_spec r s') as [Hlt|Hge].
+      + rewrite N.lxor_spec, testbit_combine_lookup by (auto; unfold s'; lia). fold (get B1 r j).
+        rewrite Hg1 by assumption. destruct (Nat.leb_spec s' r); [lia|]. cbn [andb].
+        rewrite Hg by assumption. destruct (Nat.leb_spec s r); [unfold s' in *; lia|].
+        replace (n - s') with (nt * k + (n - s)) by (unfold s'; lia).
+        rewrite xsum_app, (xorb_comm (xsum (nt * k) _)), <- xorb_assoc. f_equal.
+        * f_equal. apply xsum_ext. intros c _. now replace (s' + (nt * k + c)) with (s + c) by (unfold s'; lia).
+        * apply xsum_ext. intros c Hc'. rewrite Hg1 by (unfold s'; lia).
+          destruct (Nat.leb_spec s' (s' + c)), (Nat.ltb_spec (s' + c) s); try (unfold s' in *; lia). reflexivity.
+      + fold (get B1 r j). rewrite Hg1 by assumption. destruct (Nat.leb_spec s' r); [|lia].
+        destruct (Nat.ltb_spec r s); cbn [andb]; [reflexivity|].
+        rewrite Hg by assumption. destruct (Nat.leb_spec s r); [reflexivity|lia].
+  Qed.
+
+  Lemma ul_big_state k : forall fuel B i, ul_state (n - i) B -> i <= n ->
+    ul_state (n - snd (ul_russian_big fuel U B k i)) (fst (ul_russian_big fuel U B k i)) /\
+    snd (ul_russian_big fuel U B k i) <= n.
+  Proof using HB0.
+    induction fuel as [|f IH]; intros B i Hst Hi; cbn [ul_russian_big]; [now split|].
+    pose proof Hst as (_ & Hr & _). rewrite Hr.
+    destruct (Nat.ltb_spec (i + ntables * k) n); [|now split].
+    apply IH; [|lia].
+    replace (n - i - ntables * k) with (n - i - ntables * k) by reflexivity.
+    replace (n - (i + ntables * k)) with (n - i - ntables * k) by lia.
+    apply ul_block_state; [assumption|lia|lia].
+  Qed.
+
+  Lemma ul_small_state : forall fuel B k i, 1 <= k -> ul_state (n - i) B -> i <= n -> n - i <= fuel ->
+    ul_state 0 (ul_russian_small fuel U B k i).
+  Proof using HB0.
+    induction fuel as [|f IH]; intros B k i Hk Hst Hi Hf; cbn [ul_russian_small].
+    - now replace 0 with (n - i) by lia.
+    - pose proof Hst as (_ & Hr & _). rewrite Hr.
+      destruct (Nat.ltb_spec i n) as [Hlt|Hge]; [|now replace 0 with (n - i) by lia].
+      set (k' := if n <? i + k then n - i else k).
+      assert (Hk' : 1 <= k' /\ i + k' <= n) by (unfold k'; destruct (Nat.ltb_spec n (i + k)); lia).
+      apply IH; try lia.
+      replace (n - (i + k')) with (n - i - 1 * k') by lia.
+      replace (n - i - k') with (n - i - 1 * k') by lia.
+      apply ul_block_state; [assumption|lia|lia].
+  Qed.
+
+  Theorem trsm_upper_left_russian_eq k : 1 <= k -> trsm_upper_left_russian k U B0 = X.
+  Proof using HB0.
+    intros Hk. unfold trsm_upper_left_russian. fold n.
+    assert (H0 : ul_state (n - 0) B0) by (rewrite Nat.sub_0_r; apply ul_state_init).
+    destruct (ul_big_state k n B0 0 H0 (Nat.le_0_l _)) as [Hst Hi].
+    destruct (ul_russian_big n U B0 k 0) as [B1 i]. cbn [fst snd] in Hst, Hi.
+    apply ul_state_final. apply ul_small_state; auto. lia.
+  Qed.
+End ULRussian.
+
+Theorem trsm_upper_left_russian_solves k U B : 1 <= k -> wf B -> solves_ul U B (trsm_upper_left_russian k U B).
+Proof. intros Hk HB. rewrite trsm_upper_left_russian_eq by assumption. now apply trsm_upper_left_spec. Qed.
+
+(** ** the recursive models with the Four-Russians middle regime plugged in: for every k >= 1
+       (the C code uses 2 <= k <= 8), every configuration and every cutoff *)
+Theorem trsm_lower_left_rec_f_spec c kk cutoff L B : 1 <= kk -> wf B -> nr B <= length (rows L) ->
+  trsm_lower_left_rec_f c kk cutoff L B = trsm_lower_left L B.
+Proof.
+  intros Hk HB HL. unfold trsm_lower_left_rec_f.
+  destruct (ll_rec_solves trsm_lower_left (trsm_lower_left_russian kk) addmul_spec (blocksize c) cutoff
+              (addmul_spec_ok cutoff)
+              (fun L B HB _ _ => trsm_lower_left_spec L B HB)
+              (fun L B HB _ _ => trsm_lower_left_russian_solves kk L B Hk HB)
+              (nr B) L B (le_n _) HB HL) as (Hw & Hr & _ & E).
+  now apply trsm_lower_left_complete.
+Qed.
+
+Theorem trsm_upper_left_rec_f_spec c kk cutoff U B : 1 <= kk -> wf B -> nr B <= length (rows U) ->
+  trsm_upper_left_rec_f c kk cutoff U B = trsm_upper_left U B.
+Proof.
+  intros Hk HB HL. unfold trsm_upper_left_rec_f.
+  destruct (ul_rec_solves trsm_upper_left (trsm_upper_left_russian kk) addmul_spec (blocksize c) cutoff
+              (addmul_spec_ok cutoff)
+              (fun U B HB _ _ => trsm_upper_left_spec U B HB)
+              (fun U B HB _ _ => trsm_upper_left_russian_solves kk U B Hk HB)
+              (nr B) U B (le_n _) HB HL) as (Hw & Hr & _ & E).
+  now apply trsm_upper_left_complete.
 Qed.
